@@ -255,10 +255,23 @@ fn is_suffix_of_span(members: &[usize], offered: &[usize], evs: &[Ev], lo: u64, 
     in_span.ends_with(members)
 }
 
+/// the duration as the library gets it: the two largest values stand for `Duration::MAX` and
+/// `Duration::from_secs(1 << 61)` (more than 2^64 ms) — a window that never slides anything out
+fn dur_of(ms: u64) -> Duration {
+    match ms {
+        u64::MAX => Duration::MAX,
+        x if x == u64::MAX - 1 => Duration::from_secs(1 << 61),
+        ms => Duration::from_millis(ms),
+    }
+}
+
 fn run_record(t: &WinTrace, obs: &mut Obs) -> Result<(), Violation> {
     let site = "TimeWindow::record";
     let d = t.duration_ms;
-    let mut w = TimeWindow::new(WindowType::Sliding, Duration::from_millis(d), 0, t.cap);
+    if d >= u64::MAX - 1 {
+        obs.count("probe.duration_that_means_unbounded");
+    }
+    let mut w = TimeWindow::new(WindowType::Sliding, dur_of(d), 0, t.cap);
     let mut prev: Vec<usize> = Vec::new();
     let mut max_seen: Option<u64> = None;
     for (i, e) in t.events.iter().enumerate() {
@@ -853,6 +866,8 @@ impl World for WindowWorld {
                 }
             }
         }
+        // one continuously sliding window in 40 has a duration that means "no bound"
+        let duration_ms = if kind == Kind::Record && rng.chance(1, 40) { *rng.pick(&[u64::MAX, u64::MAX - 1]) } else { duration_ms };
         WinTrace { hash_seed, kind, duration_ms, cap, max_windows, events, tick_pattern }
     }
 
@@ -868,7 +883,7 @@ impl World for WindowWorld {
         let alpha = matches!(t.kind, Kind::AlphaSliding | Kind::AlphaTumbling | Kind::AlphaNoWindow);
         let reordered = t.events.windows(2).any(|w| w[1].ts < w[0].ts);
         obs.faulty = if alpha { t.events.iter().any(|e| e.clock_adv <= 0) || !t.tick_pattern.is_empty() } else { reordered };
-        let distinct_windows: BTreeSet<i64> = t.events.iter().map(|e| e.ts.div_euclid(t.duration_ms as i64)).collect();
+        let distinct_windows: BTreeSet<i64> = t.events.iter().map(|e| e.ts.div_euclid(i64::try_from(t.duration_ms).unwrap_or(i64::MAX))).collect();
         obs.nontrivial = t.events.len() >= 3 && obs.faulty && (distinct_windows.len() >= 2 || t.events.len() > t.cap);
         obs.fp_str(&format!("{:?}|{}|{}|{}|{:?}|{:?}", t.kind, t.duration_ms, t.cap, t.max_windows, t.events, t.tick_pattern));
         if !alpha && t.events.iter().any(|e| e.ts >= 1 << 31) {
@@ -928,7 +943,7 @@ impl World for WindowWorld {
         // the whole history closer to zero (by whole windows, so that the alignment stays)
         if !matches!(t.kind, Kind::AlphaSliding | Kind::AlphaTumbling | Kind::AlphaNoWindow) {
             if let Some(m) = t.events.iter().map(|e| e.ts).min() {
-                let d = t.duration_ms.max(1) as i64;
+                let d = i64::try_from(t.duration_ms.max(1)).unwrap_or(i64::MAX);
                 for off in [(1i64 << 31) / d * d, m / 2 / d * d, m / d * d] { // inserted at the front one by one: the largest step ends up first
                     if off > 0 && off <= m {
                         let mut c = t.clone();
@@ -942,7 +957,7 @@ impl World for WindowWorld {
         }
         // the whole history in a smaller unit
         for k in [60_000i64, 1000, 7] {
-            if t.duration_ms as i64 % k == 0 && t.duration_ms as i64 / k >= 1 && t.events.iter().all(|e| e.ts % k == 0 && e.clock_adv % k == 0) {
+            if t.duration_ms < u64::MAX - 1 && t.duration_ms as i64 % k == 0 && t.duration_ms as i64 / k >= 1 && t.events.iter().all(|e| e.ts % k == 0 && e.clock_adv % k == 0) {
                 let mut c = t.clone();
                 c.duration_ms /= k as u64;
                 for e in c.events.iter_mut() {
